@@ -446,6 +446,35 @@ fn main() {
         },
     );
 
+    // long-chunk: the jump shapes behind a long run of output, so that every jump target (in the
+    // numbering before and after the pass) lies beyond 2^8, 2^15 and 2^16 instructions (seeded
+    // change C09-15: the old-to-new index table narrowed to u16)
+    let pads: &[usize] = if thorough { &[90, 130, 260, 11000, 17000, 23000, 33000, 66000] } else { &[130, 17000, 33000, 66000] };
+    let long_fill: &[&str] = if thorough { &["a.b", "a?.b?.c", "z.y"] } else { &["a.b"] };
+    let npad = pads.len() as u64;
+    let nlf = long_fill.len() as u64;
+    run.family(
+        Family::new(
+            "long-chunk",
+            SHAPES.len() as u64 * npad * nlf,
+            &format!(
+                "{} shapes (all slots one filler of {:?}) at top level after {:?} units of `{{{{ xs | length }}}}x`, {} contexts, both optimiser modes",
+                SHAPES.len(),
+                long_fill,
+                pads,
+                ctxs.len()
+            ),
+        ),
+        |item, acc| {
+            let f = long_fill[(item % nlf) as usize];
+            let pad = pads[((item / nlf) % npad) as usize];
+            let shape = SHAPES[(item / nlf / npad) as usize];
+            let body = format!("{}|{}", "{{ xs | length }}x".repeat(pad), fill(shape, [f, f, f]));
+            let prog = place(&body, "top");
+            judge(&prog, &ctxs, acc, "long-chunk");
+        },
+    );
+
     // ------------------------------------------------------------------ reuse: C02's expressions
     // every program of C02's families (operator pairs under their first leaf assignments, all
     // short-circuit / undefined / operand-kind / literal programs), sharded by position
